@@ -2,7 +2,7 @@
 from xsvlib.facts import fmt, strip, place_path, walk
 from xsvlib import q
 from . import common as C
-from .store_shared import rule_range_bounds, read_bodies, expiry_tests
+from .store_shared import rule_range_bounds, read_bodies, expiry_tests, denotes_field
 
 EXPLANATION = ("Range-bound kinds and provenance in iter_frames, adaptor order of read_sync (expiry filter before take), expiry / limit "
                "accounting of the streaming history loop by dominance, expiry guard at every consumer of the raw iterator, and id assignment "
@@ -68,7 +68,7 @@ def history_loop(run):
     return h, nxt, frame_sends
 
 
-def count_local(h):
+def count_local(h, run=None):
     """The counter local: lhs of the `count >= limit` comparison whose rhs is the limit option's payload."""
     for bb, si in h.switches():
         if si["kind"] != "bool":
@@ -78,7 +78,8 @@ def count_local(h):
             continue
         rel, l, r = cmp_
         for (a, b2, rl) in ((l, r, rel), (r, l, q.SWAP[rel])):
-            if any(x[0] == "field" and "limit" in str(x[2]) for x in walk(b2)) or any(x[0] == "arg" and x[2] == "limit" for x in walk(b2)):
+            if (run is not None and denotes_field(run, h, b2, "limit")) or any(x[0] == "field" and str(x[2]).split("__")[-1] == "limit" for x in walk(b2)) \
+                    or any(x[0] == "arg" and x[2] == "limit" for x in walk(b2)):
                 if a[0] in ("phi", "local"):
                     return a[1], bb, rl
     return None, None, None
@@ -117,7 +118,7 @@ def r3(run):
            "the history loop iterates iter_frames(..) directly (adaptors before the expiry test: %s)" % chain, reason="limit-before-expiry-filter")
     tests = expiry_tests(h)
     run.floor("expiry tests in the history loop", len(tests), 1, h.sp)
-    cl, cmp_bb, rel = count_local(h)
+    cl, cmp_bb, rel = count_local(h, run)
     incs = increments_of(h, cl) if cl is not None else []
     run.ob("%s|history|counter" % C.READ, cl is not None and len(incs) == 1, h.sp, "one delivered-frame counter compared with the limit and incremented at one site (%d)" % len(incs),
            reason="limit-accounting")
@@ -141,7 +142,7 @@ def r3(run):
         # every send dominated by (limit is None) or (count < limit)
         lim_none = []
         for bb, si in h.switches():
-            if si["kind"] == "variant" and any(x[0] == "field" and "limit" in str(x[2]) for x in walk(si["cond"])):
+            if si["kind"] == "variant" and denotes_field(run, h, si["cond"], "limit"):
                 for (t, lab, m) in si["edges"]:
                     ms = m if isinstance(m, tuple) else (m,)
                     if ms == ("None",):
